@@ -407,11 +407,19 @@ func (s *clientSocket) onConnect(_ *parser.PacketHeader, decode parser.Decode) {
 		s.setPID(adapter.PrivateSessionID(v.PID))
 	}
 
-	s.setID(SocketID(v.SID))
-
 	s.stateMu.Lock()
+	// Packets are handled on their own goroutines. If the connection was closed (or the socket
+	// disconnected) before we got here, this CONNECT packet is stale: the socket must not report
+	// a connection that is already over (and whose end has already been reported).
+	if s.state != clientSocketConnStateConnectPending {
+		s.stateMu.Unlock()
+		s.debug.Log("Ignoring a CONNECT packet. The socket is not waiting for one")
+		return
+	}
 	s.state = clientSocketConnStateConnected
 	s.stateMu.Unlock()
+
+	s.setID(SocketID(v.SID))
 
 	s.debug.Log("Socket connected")
 
